@@ -10,3 +10,4 @@ import OsyrisProofs.C02
 #print axioms Osyris.C02.generated_applies
 #print axioms Osyris.C02.C02_add_sub_current
 #print axioms Osyris.C02.C02_mul_div_current
+#print axioms Osyris.C02.C02_broadcast_reads_in_range
